@@ -318,7 +318,12 @@ def member_pool(rng):
                     service=0x4d, path=sim.sympath(name, idx), write_tag={'elements': elm, 'type': 0xc3, 'data': [idx * 10 + j for j in range(elm)]}))
     pool.append(lambda: cpppo.dotdict(service=0x4d, path=sim.sympath('A', 0), write_tag={'elements': 1, 'type': 0xc4, 'data': [70000]}))
     num = lambda c, i, a: {'segment': [cpppo.dotdict({'class': c}), cpppo.dotdict({'instance': i}), cpppo.dotdict({'attribute': a})]}
-    for c, i, a in ((1, 1, 3), (2, 1, 1), (2, 1, 2), (1, 1, 7), (0x66, 1, 1)):
+    # a member that still carries bytes rendered earlier for something else in `.input` (as client.service_code leaves them): a request is
+    # encoded from its fields
+    pool.append(lambda: cpppo.dotdict(service=0x4c, path=sim.sympath('A', 0), read_tag={'elements': 1}, input=bytearray(b'\x00\x01')))
+    pool.append(lambda: cpppo.dotdict(service=0x4d, path=sim.sympath('BB', 1), write_tag={'elements': 1, 'type': 0xc3, 'data': [77]}, input=bytearray()))
+    # (class 2 instance 0 is the class-level instance of the Logix object class: not the instance that holds the tags)
+    for c, i, a in ((1, 1, 3), (2, 1, 1), (2, 1, 2), (1, 1, 7), (0x66, 1, 1), (2, 0, 1), (2, 0, 2), (2, 0, 4), (2, 1, 4)):
         pool.append(lambda c=c, i=i, a=a: cpppo.dotdict(service=0x0e, path=num(c, i, a), get_attribute_single=True))
     return pool
 
